@@ -546,7 +546,10 @@ def check_r09c(repo, rep, uni):
             if mod in ('yaql.language.expressions', 'yaql.language.runner',
                        'yaql.yaql_interface') and fi.key not in \
                     uni.payload_ov and isinstance(target, ast.Name) and \
-                    target.id in fi.params():
+                    target.id in fi.params() and (
+                        not fi.name.startswith('_') or
+                        fi.name.startswith('__')):
+                # (private helpers are handed what their callers made)
                 # the expression nodes, the dispatcher and the host
                 # interface are handed the HOST's context (a payload gets a
                 # per-call child): what they write must go into a child
